@@ -349,7 +349,7 @@ def r7_set_content_and_clone(ctx):
         is_none = r is not None and r[0] == 'agg' and r[1].endswith('Option::None')
         # the `?` is lowered to Try::branch on the clone result
         atoms = [a for _, a in path_atoms(f, path, decs)]
-        failed = any(a[0] == 'is' and a[2] == 'Break' and any(x[0] == 'call' and x[1] == BODY + '::try_clone' for x in walk(a[1])) for a in atoms) or ('None' in outs)
+        failed = any(a[0] == 'is' and a[2] in ('Break', 'None') and any(x[0] == 'call' and x[1] == BODY + '::try_clone' for x in walk(a[1])) for a in atoms) or ('None' in outs)
         if failed:
             n += 1
             ctx.check(not is_some, 'failed-body-clone-is-none', 'when the body cannot be cloned, Message::try_clone returns None', f.where_path(path))
